@@ -121,6 +121,7 @@ def run(tier, seed, t0):
         "solver:forced_removals": (g("forced:min_vol_raised_above_volume"), 0.15 * nrun),
         "solver:divisions_observed": (g("divisions_observed"), 0.05 * nrun),
         "solver:division_trigger_ready": (g("division_trigger:epithelial:ready"), 0.05 * nrun),
+        "solver:division_attempts_failed_mother_survives": (g("division_attempts_failed_mother_survives"), 0.05 * nrun),
         "solver:ecm_cells": (g("cells:ecm"), 0.1 * nrun),
     }
     for cls in ("epithelial", "lumen", "nucleus", "static", "ecm", "ecm_mobile"):
